@@ -97,6 +97,13 @@ def o_norm(case, T):
     if isinstance(s, int):
         require(R.roi_shape(s) == (1,), "roi_shape(int)")
         require(R.roi_is_full(s, n) == (n == 1), "roi_is_full(int)")
+        if s >= 0:
+            # index k is the index set {k}: its centre is k + 1/2, alone and as a component of an N-d region
+            require(R.roi_center(s) == s + 0.5, "roi_center(%r)=%r, the centre of index set {%d} is %r", s, R.roi_center(s), s, s + 0.5)
+            c2 = R.roi_center((s, slice(0, 4)))
+            require(tuple(c2) == (s + 0.5, 2.0), "roi_center((%r, 0:4))=%r expected %r", s, c2, (s + 0.5, 2.0))
+            c3 = R.roi_center((slice(1, 2), s))
+            require(tuple(c3) == (1.5, s + 0.5), "roi_center((1:2, %r))=%r expected %r", s, c3, (1.5, s + 0.5))
     elif (s.start is None or s.start >= 0) and (s.stop is None or 0 <= s.stop <= n):
         # un-normalised but non-negative forms accepted by the query helpers
         if s.stop is not None and (s.start or 0) <= s.stop:
